@@ -26,10 +26,13 @@ package migrate
 //@ func CopyStable$2
 //@   ensures true
 
+//@ -- a key the source never wrote (a node that never voted, an extra key not yet
+//@ -- set) is reported by the source as "not found": it is skipped, not fatal
 //@ func CopyStable
 //@   props C19
 //@   requires ctx != nil && dst != nil && src != nil && (progress == nil || !closed(progress))
 //@   assigns *
 //@   ensures[C19.stable-closed] progress != nil ==> closed(progress)
+//@   ensures[C19.stable-missing-keys-skipped] old(g_src_hard) == 0 && old(g_dst_err) == 0 && g_src_hard == 0 && g_dst_err == 0 && ctx.ctxerr == nil ==> result == nil
 //@   loop 1 invariant progress == nil || !closed(progress)
 //@   loop 2 invariant progress == nil || !closed(progress)
